@@ -100,6 +100,10 @@ func (c *SuperCfg) minimise(bin string, p *Plan, sig string, budget time.Duratio
 		}
 	}
 
+	if len(cur.Tasks) > 0 {
+		cur = c.minimiseSchedule(bin, cur, sig, deadline)
+	}
+
 	// ddmin over Ops
 	n := 2
 	for len(cur.Ops) >= 1 && time.Now().Before(deadline) {
@@ -156,4 +160,60 @@ func (c *SuperCfg) minimise(bin string, p *Plan, sig string, budget time.Duratio
 		}
 	}
 	return cur
+}
+
+// minimiseSchedule makes the schedule of an engine-S plan explicit (the complete decision
+// list of the failing run, replayed with strategy "random" as fallback) and then removes
+// context switches one at a time, from the end, as long as the same violation persists.
+func (c *SuperCfg) minimiseSchedule(bin string, p *Plan, sig string, deadline time.Time) *Plan {
+	run := func(q *Plan, tag string) (*RunResult, bool) {
+		r, _, _ := c.execPlan(bin, q, tag, 60*time.Second)
+		if r == nil {
+			return nil, false
+		}
+		for _, v := range r.Viols {
+			if v.Sig == sig {
+				return r, true
+			}
+		}
+		return r, false
+	}
+	r0, ok := run(p, "sch0")
+	if !ok || len(r0.Trace) == 0 {
+		return p // a process death (race report, deadlock): the seed-derived schedule stays
+	}
+	mk := func(tr []int32) *Plan {
+		q := p.Clone()
+		q.Expect = nil
+		q.Sched = &SchedP{Strategy: 0, HoldTask2: -1, Race: p.Sched != nil && p.Sched.Race, Decisions: append([]int32(nil), tr...)}
+		return q
+	}
+	best := mk(r0.Trace)
+	rb, ok := run(best, "sch1")
+	if !ok || rb.Diverged > 0 {
+		return p
+	}
+	tr := rb.Trace
+	seq := 0
+	for i := len(tr) - 1; i >= 1 && time.Now().Before(deadline); i-- {
+		if i >= len(tr) {
+			i = len(tr) - 1
+			if i < 1 {
+				break
+			}
+		}
+		if tr[i] == tr[i-1] {
+			continue
+		}
+		cand := append([]int32(nil), tr...)
+		cand[i] = cand[i-1] // stay with the task that was running
+		seq++
+		q := mk(cand)
+		if r, ok := run(q, fmt.Sprintf("sch%d", seq+1)); ok && len(r.Trace) > 0 {
+			// adopt the decisions the run really took (a recorded task may not have been runnable)
+			tr = r.Trace
+			best = mk(tr)
+		}
+	}
+	return best
 }
